@@ -642,6 +642,52 @@ func registerMisc() {
 		unsupported("reflect.Value.Pointer on %T", itf.V)
 		return nil
 	})
+	// crypto/tls: the record layer is not modelled. Reads pull bytes from the underlying
+	// conn (so that what the TLS layer would consume is really consumed) and fail; writes fail.
+	tlsUnder := func(m *Machine, recv Value) Iface {
+		st := (*recv.(*Value)).(Struct)
+		tt := m.prog.lookupType("crypto/tls", "Conn").Underlying().(*types.Struct)
+		for i := 0; i < tt.NumFields(); i++ {
+			if tt.Field(i).Name() == "conn" {
+				return st[i].(Iface)
+			}
+		}
+		unsupported("crypto/tls.Conn has no conn field")
+		return Iface{}
+	}
+	tlsErr := func(m *Machine) Value { return m.newError(Str{S: "verif: TLS record layer not modelled"}) }
+	reg("(*crypto/tls.Conn).Read", func(m *Machine, fr *frame, a []Value) Value {
+		under := tlsUnder(m, a[0])
+		f := m.prog.ssa.LookupMethod(under.T, nil, "Read")
+		buf := a[1].(Slice)
+		scratch := make([]Value, len(buf.A))
+		for i := range scratch {
+			scratch[i] = zeroInt
+		}
+		m.call(fr, token.NoPos, f, []Value{under.V, Slice{A: scratch}})
+		m.tlsReads++
+		return Tuple{Int{C: 0}, tlsErr(m)}
+	})
+	reg("(*crypto/tls.Conn).Write", func(m *Machine, fr *frame, a []Value) Value {
+		m.tlsWrites++
+		return Tuple{Int{C: 0}, tlsErr(m)}
+	})
+	reg("(*crypto/tls.Conn).Close", func(m *Machine, fr *frame, a []Value) Value {
+		under := tlsUnder(m, a[0])
+		f := m.prog.ssa.LookupMethod(under.T, nil, "Close")
+		return m.call(fr, token.NoPos, f, []Value{under.V})
+	})
+	reg("(*crypto/tls.Conn).Handshake", func(m *Machine, fr *frame, a []Value) Value { return tlsErr(m) })
+	reg("(*crypto/tls.Conn).HandshakeContext", func(m *Machine, fr *frame, a []Value) Value { return tlsErr(m) })
+	reg("(*crypto/tls.Config).Clone", func(m *Machine, fr *frame, a []Value) Value {
+		p := a[0].(*Value)
+		if p == nil {
+			return (*Value)(nil)
+		}
+		q := new(Value)
+		*q = copyVal(*p)
+		return q
+	})
 	reg("os.Getenv", func(m *Machine, fr *frame, a []Value) Value { return Str{} })
 }
 
